@@ -408,6 +408,18 @@ func (p *Prog) safetyInstr(pr *Prover, b *ssa.BasicBlock, ins ssa.Instruction, o
 			pr.linMemo = map[ssa.Value]*Lin{}
 		}
 		l := pr.lin(x.Len)
+		// make([]T, len, cap) panics unless 0 <= len <= cap
+		if x.Cap != nil && x.Cap != x.Len {
+			cp := pr.lin(x.Cap)
+			if !(cp.isConst() && l.isConst() && cp.c >= l.c) {
+				okc := pr.Prove(b, cp.sub(l))
+				howc := "capacity " + cp.String() + " >= length " + l.String()
+				if !okc {
+					howc = "cannot prove make capacity " + cp.String() + " >= length " + l.String() + " (facts: " + describeFacts(pr, b) + ")"
+				}
+				ob("makecap", ins, okc, howc)
+			}
+		}
 		if l.isConst() && l.c >= 0 {
 			return
 		}
@@ -424,6 +436,34 @@ func (p *Prog) safetyInstr(pr *Prover, b *ssa.BasicBlock, ins ssa.Instruction, o
 		ob("nilmap", ins, ok, how, x.Map)
 	case *ssa.BinOp:
 		switch x.Op {
+		case token.EQL, token.NEQ:
+			// comparing two interface values panics when their dynamic types are identical and not comparable
+			// (a struct with a slice field, a slice, a map, a func): safe when one side is nil, or is known to hold a
+			// comparable dynamic type (then identical types are comparable)
+			if _, isI := x.X.Type().Underlying().(*types.Interface); !isI {
+				return
+			}
+			if _, isI := x.Y.Type().Underlying().(*types.Interface); !isI {
+				return
+			}
+			safe := func(v ssa.Value) bool {
+				switch y := v.(type) {
+				case *ssa.Const:
+					return y.Value == nil
+				case *ssa.MakeInterface:
+					return types.Comparable(y.X.Type())
+				case *ssa.UnOp:
+					// a package-level error variable of the standard library (io.EOF, …): a pointer inside
+					if g, ok := y.X.(*ssa.Global); ok && y.Op == token.MUL && g.Pkg != nil && g.Pkg.Pkg != p.Pkg {
+						return true
+					}
+				}
+				return false
+			}
+			if safe(x.X) || safe(x.Y) {
+				return
+			}
+			ob("ifacecmp", ins, false, "comparison of two interface values whose dynamic types are not known: it panics if both hold the same uncomparable type")
 		case token.QUO, token.REM:
 			if _, _, isInt := pr.intTypeRange(x.Type()); !isInt {
 				return
